@@ -81,6 +81,23 @@ Print Assumptions preset_names_as_source.
 Print Assumptions every_preset_named.
 Print Assumptions preset_schemas_valid.
 
+(* src/utils/sanitize.rs: the preset constructors *)
+From ZV Require Import Sanitize Flow.
+Theorem sanitizer_presets_as_source :
+  semver_str = src_sanitizer_semver_str /\ pep440_local_str = src_sanitizer_pep440_local_str /\ uint_sanitizer = src_sanitizer_uint /\
+  key_sanitizer = src_sanitizer_key /\ forall sep lower keep mx, custom_str sep lower keep mx = src_sanitizer_str sep lower keep mx.
+Proof. repeat split. Qed.
+
+(* src/cli/flow/branch_rules.rs: the default rules, and the answer when no rule matches / there is no branch *)
+Theorem default_rules_as_source : default_rules = src_default_rules. Proof. reflexivity. Qed.
+Theorem no_rule_answer_as_source : forall rules b, find (fun r => rule_matches r b) rules = None ->
+  resolve_for_branch rules (Some b) = src_no_rule_answer /\ resolve_for_branch rules None = src_no_rule_answer.
+Proof. intros rules b H. unfold resolve_for_branch. rewrite H. split; reflexivity. Qed.
+
+Print Assumptions sanitizer_presets_as_source.
+Print Assumptions default_rules_as_source.
+Print Assumptions no_rule_answer_as_source.
+
 Print Assumptions component_tables_as_source.
 Print Assumptions default_prec_as_source.
 Print Assumptions valid_patterns_as_source.
